@@ -324,13 +324,13 @@ pub fn run(s: &Session) {
 
     s.forall(
         "arith",
-        s.pick(60_000, 2_000_000),
+        s.pick(200_000, 2_000_000),
         || (v_strategy(), v_strategy()).prop_map(|(a, b)| ArithCase { a, b }),
         check_arith,
     );
     s.forall(
         "round-print",
-        s.pick(60_000, 2_000_000),
+        s.pick(200_000, 2_000_000),
         || (v_strategy(), any::<u16>()).prop_map(|(v, prec_sel)| RoundCase { v, prec_sel }),
         check_round,
     );
@@ -353,7 +353,7 @@ pub fn run(s: &Session) {
     s.foreach("round-family", fam, false, check_round);
     s.forall(
         "from-integer",
-        s.pick(4_000, 100_000),
+        s.pick(10_000, 100_000),
         || {
             prop_oneof![
                 any::<u64>().prop_map(FromCase::U),
